@@ -7,7 +7,7 @@ From Mimium Require Import Bvm.Model Bvm.Verify.
 Import ListNotations.
 Local Open Scope N_scope.
 
-Definition mkFn0 pw np nr code consts jt ss : fn := mkFn pw np nr code consts jt ss [].
+Definition mkFn0 pw np nr code consts jt ss : fn := mkFn pw np nr code consts jt ss [] [].
 
 Definition toy : arith :=
   mkArith (fun _ x y => ((x + y) mod 18446744073709551616)%Z) (fun _ x => x)
